@@ -1,5 +1,5 @@
 (** Property C11 — the TIR wire format round-trips. *)
-From Tx3 Require Import Base Tir PlutusData Serde Serde_proofs Serde_back.
+From Tx3 Require Import Base Tir Reduce PlutusData Serde Serde_proofs Serde_back Serde_tx.
 
 (** ciborium's encoding of the data model is inverted by the decoder, for every value *)
 Theorem C11_decode_encode : forall v, ok_cval v = true ->
@@ -30,8 +30,23 @@ Theorem C11_wire_expression_roundtrip : forall e, wf_e e = true -> ok_cval (to_c
     end.
 Proof. exact wire_expression_roundtrip. Qed.
 
+(** the same for a whole transaction: every block, the optional validity and signers, the
+    directives (fields in key order), from the bytes back to the transaction *)
+Theorem C11_transaction_roundtrip : forall t, tx_wf t = true ->
+  exists f0, forall f, (f0 <= f)%nat -> of_tx f (tx_cval t) = Some (tx_norm t).
+Proof. exact of_tx_tx_cval. Qed.
+Theorem C11_wire_transaction_roundtrip : forall t, tx_wf t = true -> ok_cval (tx_cval t) = true ->
+  exists f0, forall f, (f0 <= f)%nat ->
+    match decode_cval f (to_bytes t) with
+    | Some (v, rest) => rest = [] /\ of_tx f v = Some (tx_norm t)
+    | None => False
+    end.
+Proof. exact wire_tx_roundtrip. Qed.
+
 Print Assumptions C11_wire_expression_roundtrip.
 Print Assumptions C11_expression_roundtrip.
 Print Assumptions C11_decode_encode.
 Print Assumptions C11_wire_roundtrip.
 Print Assumptions C11_layout_distinguishes_constructors.
+Print Assumptions C11_transaction_roundtrip.
+Print Assumptions C11_wire_transaction_roundtrip.
